@@ -1,7 +1,7 @@
 import torch
 import inspect
 from typing import Callable, List, Tuple, Union, Sequence
-from xitorch._utils.attr import set_attr, del_attr
+from xitorch._utils.attr import get_attr, set_attr, del_attr
 from xitorch._utils.unique import Uniquifier
 from xitorch._core.editable_module import EditableModule
 from contextlib import contextmanager
@@ -44,10 +44,17 @@ class PureFunction(object):
     def objparams(self) -> List:
         return self._cur_objparams
 
+    def _get_all_obj_params_now(self) -> List:
+        # the tensors the object holds at this moment under the recorded names
+        # (its owner may have re-assigned them since this wrapper was made)
+        return self._get_all_obj_params_init()
+
     def set_objparams(self, objparams: List):
-        # TODO: check if identical with current object parameters
-        identical = _check_identical_objs(objparams, self._cur_objparams)
-        self._restore_stack.append((self._cur_objparams, identical))
+        # compare with (and later restore) what the object holds now, not what it
+        # held when this wrapper was made
+        cur_objparams = self._uniq.get_unique_objs(self._get_all_obj_params_now())
+        identical = _check_identical_objs(objparams, cur_objparams)
+        self._restore_stack.append((cur_objparams, identical))
         if not identical:
             allobjparams = self._uniq.map_unique_objs(objparams)
             self._set_all_obj_params(allobjparams)
@@ -120,6 +127,9 @@ class TorchNNPureFunction(PureFunction):
         self.names = paramnames
         return obj_params
 
+    def _get_all_obj_params_now(self) -> List:
+        return [get_attr(self.obj, name) for name in self.names]
+
     def _set_all_obj_params(self, objparams: List):
         for (name, param) in zip(self.names, objparams):
             del_attr(self.obj, name)  # delete required in case the param is not a torch.nn.Parameter
@@ -132,6 +142,9 @@ class SingleSiblingPureFunction(PureFunction):
 
     def _get_all_obj_params_init(self) -> List:
         return self.pfunc._get_all_obj_params_init()
+
+    def _get_all_obj_params_now(self) -> List:
+        return self.pfunc._get_all_obj_params_now()
 
     def _set_all_obj_params(self, allobjparams: List):
         self.pfunc._set_all_obj_params(allobjparams)
@@ -149,6 +162,12 @@ class MultiSiblingPureFunction(PureFunction):
             objparams = pfunc._get_all_obj_params_init()
             res = res + objparams
             self.cumsum_idx[i + 1] = self.cumsum_idx[i] + len(objparams)
+        return res
+
+    def _get_all_obj_params_now(self) -> List:
+        res: List[Union[torch.Tensor, torch.nn.Parameter]] = []
+        for pfunc in self.pfuncs:
+            res = res + pfunc._get_all_obj_params_now()
         return res
 
     def _set_all_obj_params(self, allobjparams: List):
